@@ -11,7 +11,8 @@ import argparse, concurrent.futures as cf, json, os, re, shutil, subprocess, sys
 VERIF = os.path.dirname(os.path.dirname(os.path.abspath(__file__)))
 REPO, PY = "/repo", "/venv/bin/python"
 ALL = [f"C{i:02d}" for i in range(1, 21)]
-AREA = {"M1": ["C01", "C02", "C03", "C04", "C12", "C13"], "M2": ["C05", "C06", "C07", "C10", "C11", "C14"], "M3": ["C06", "C08", "C10", "C05", "C09", "C11"], "M4": ["C09", "C11", "C02"], "M5": ["C14", "C05", "C07"], "M6": ["C15"], "M7": ["C16", "C19", "C05", "C07"], "M8": ["C17", "C18", "C20"], "N1": ["C01", "C02", "C03", "C04", "C12", "C13"], "N2": ["C05", "C06", "C07", "C10", "C11", "C14"], "N3": ["C06", "C08", "C10", "C05", "C09", "C11"],
+AREA = {"K1": ["C01", "C02", "C03", "C04", "C12", "C13"], "K2": ["C05", "C06", "C07", "C10", "C11", "C14"], "K3": ["C06", "C08", "C10", "C05", "C09", "C11"], "K4": ["C09", "C11", "C02"], "K5": ["C14", "C05", "C07"], "K6": ["C15"], "K7": ["C16", "C19", "C05", "C07"], "K8": ["C17", "C18", "C20"],
+        "M1": ["C01", "C02", "C03", "C04", "C12", "C13"], "M2": ["C05", "C06", "C07", "C10", "C11", "C14"], "M3": ["C06", "C08", "C10", "C05", "C09", "C11"], "M4": ["C09", "C11", "C02"], "M5": ["C14", "C05", "C07"], "M6": ["C15"], "M7": ["C16", "C19", "C05", "C07"], "M8": ["C17", "C18", "C20"], "N1": ["C01", "C02", "C03", "C04", "C12", "C13"], "N2": ["C05", "C06", "C07", "C10", "C11", "C14"], "N3": ["C06", "C08", "C10", "C05", "C09", "C11"],
         "N4": ["C09", "C11", "C02"], "N5": ["C14", "C05", "C07"], "N6": ["C15"], "N7": ["C16", "C19", "C05", "C07"], "N8": ["C17", "C18", "C20"]}
 
 
